@@ -565,7 +565,7 @@ def field_store_sites(repo, tier):
                     per_fn.setdefault(q, []).append((t, value, fnode, n))
         for q, sites in sorted(per_fn.items()):
             for k, (t, value, fnode, stmt) in enumerate(sorted(sites, key=lambda x: (x[0].lineno, x[0].col_offset))):
-                oid = f"C04/{short(rel)}::{q}/field-store#{t.attr}@{k}"
+                oid = f"C04/{short(rel)}::{q}/call-pre#store-{t.attr}@{k}"
                 loc = f"{rel}:{t.lineno}"
                 base = t.value
                 cls_q = q.split(".")[0] if "." in q else None
@@ -621,7 +621,7 @@ def field_store_sites(repo, tier):
             for k, (call, fnode, hits) in enumerate(sorted(sites, key=lambda x: (x[0].lineno, x[0].col_offset))):
                 loc = f"{rel}:{call.lineno}"
                 kws = dict(hits)
-                oid = f"C04/{short(rel)}::{q}/field-store#indirect-{'-'.join(sorted(str(h[0]) for h in hits))}@{k}"
+                oid = f"C04/{short(rel)}::{q}/call-pre#store-indirect-{'-'.join(sorted(str(h[0]) for h in hits))}@{k}"
                 target = call.args[0] if call.args else None
                 cls_q = q.split(".")[0] if "." in q else None
                 if isinstance(call.func, ast.Attribute) and call.func.attr == "__setattr__":
@@ -1147,7 +1147,7 @@ def chr_sites(repo, tier):
         for q, sites in sorted(per_fn.items()):
             for k, (node, fnode, kind, payload) in enumerate(sorted(sites, key=lambda x: (x[0].lineno, x[0].col_offset))):
                 n_sites += 1
-                oid = f"C04/{short(rel)}::{q}/wf#chr-site-{k}"
+                oid = f"C04/{short(rel)}::{q}/call-pre#chr-wf@{k}"
                 obls.append(_chr_obligation(oid, rel, mod, ix, fnode, node, pats, q, k, kind, payload))
     obls.append(ground_obligation("C04/package/wf#chr-sites-scanned", True, f"{n_sites} int->character sites (chr calls, chr as a value, "
                                   f"'c' formats, translate tables) in the parsing package", "package"))
@@ -1258,7 +1258,7 @@ def decode_sites(repo, tier):
         for q, sites in sorted(per_fn.items()):
             for k, (call, fnode, kind) in enumerate(sorted(sites, key=lambda x: (x[0].lineno, x[0].col_offset))):
                 n_sites += 1
-                oid = f"C04/{short(rel)}::{q}/wf#decode-site-{k}"
+                oid = f"C04/{short(rel)}::{q}/call-pre#decode-wf@{k}"
                 pos = list(call.args[1:] if kind in ("str", "codecs.decode") else call.args)
                 kw = {k_.arg: k_.value for k_ in call.keywords}
                 enc = kw.get("encoding", pos[0] if pos else None)
@@ -1333,7 +1333,7 @@ def decode_sites(repo, tier):
             per_fn.setdefault(q, []).append((n, why, definite))
         for q, sites in sorted(per_fn.items()):
             for k, (call, why, definite) in enumerate(sorted(sites, key=lambda x: (x[0].lineno, x[0].col_offset))):
-                o = ground_obligation(f"C04/{short(rel)}::{q}/wf#text-producer-site-{k}", False, f"{rel}:{call.lineno} {ast.unparse(call)[:80]}: {why}", rel, definite=definite)
+                o = ground_obligation(f"C04/{short(rel)}::{q}/call-pre#text-producer-wf@{k}", False, f"{rel}:{call.lineno} {ast.unparse(call)[:80]}: {why}", rel, definite=definite)
                 o["replay_hint"] = {"kind": "decode", "file": rel, "function": q, "ordinal": k, "source": ast.unparse(call)[:80]}
                 obls.append(o)
     obls.append(ground_obligation("C04/package/wf#other-text-producers-scanned", True,
